@@ -365,7 +365,8 @@ pub fn run_c03(o: &Opts) -> i32 {
     {
         let big = |u: &str, sign: &str| format!("(({u}^1073741824)^1073741824)^{sign}4", u = u, sign = sign);
         let mut lines: Vec<(String, String, String)> = vec![];
-        for (src, tgt) in [("3^50000 m", "3^49999 m"), ("2^70001 s", "2^70000 s"), ("10^20000 kg", "10^19999 g"), ("7^30000 m", "7^29998 m"), ("1 g", "uct"), ("3 St", "mSt"), ("3 St", "MSt"), ("3 St", "hSt"), ("1 St", "ESt"), ("5 carat", "uct"), ("1 m^2/s", "mSt")] { lines.push((src.to_string(), tgt.to_string(), tgt.to_string())); }
+        for (src, tgt) in [("0 m / s", "km/hour"), ("(0 m)/(3 s)", "mph"), ("(2 kg - 2000 g)/m^3", "g/cm^3"), ("0 m", "ft"), ("0 kg m / s^2", "N"), ("0 m / s", "percent"), ("(0 m)/(3 s)", "1"), ("5 m", "m^0 m"), ("5 m^2", "m^0 m"), ("(3 m)^0", "1"),
+                           ("3^50000 m", "3^49999 m"), ("2^70001 s", "2^70000 s"), ("10^20000 kg", "10^19999 g"), ("7^30000 m", "7^29998 m"), ("1 g", "uct"), ("3 St", "mSt"), ("3 St", "MSt"), ("3 St", "hSt"), ("1 St", "ESt"), ("5 carat", "uct"), ("1 m^2/s", "mSt")] { lines.push((src.to_string(), tgt.to_string(), tgt.to_string())); }
         for u in ["m", "s"] { for sg in ["", "-"] {
             let x = big(u, sg);
             lines.push((format!("6 {}", x), format!("2 {}", x), format!("2 {}", x)));
